@@ -84,7 +84,7 @@ Section WithSqrt.
       r == spec_cx_radiance sqrt K sps bfield rs (beam_density beam_len beam_z att)
                             (beam_velocity sqrt K dir energy) ground (excited_of rates).
   Proof.
-    intros Hp. unfold cx_emission.
+    intros Hp. unfold cx_emission, cx_emission_gen.
     destruct (find_species sps lel (lch + 1)) as [rs|] eqn:Ef; [|discriminate].
     rewrite populate_cache_spec. cbn [fst snd].
     destruct (Qeq_bool (beam_density beam_len beam_z att) 0); [discriminate|].
@@ -144,12 +144,108 @@ Section WithSqrt.
     assert (0 <= zq (fst sf)) by (unfold zq; change 0 with (inject_Z 0); rewrite <- Zle_Qle; assumption). nra.
   Qed.
 
+  (* what is known when a line was emitted: the three guards of emission() were passed *)
+  Lemma cx_emission_guards sps bfield lel lch rates beam_len beam_z att dir energy r :
+    cx_emission sqrt K sps bfield lel lch rates beam_len beam_z att dir energy = AddLine r ->
+    exists rs, find_species sps lel (lch + 1) = Some rs /\
+               ~ beam_density beam_len beam_z att == 0 /\ ~ dens rs == 0 /\ ~ temp rs == 0.
+  Proof.
+    unfold cx_emission, cx_emission_gen.
+    destruct (find_species sps lel (lch + 1)) as [rs|] eqn:Ef; [|discriminate].
+    destruct (Qeq_bool (beam_density beam_len beam_z att) 0) eqn:E1; [discriminate|].
+    destruct (Qeq_bool (dens rs) 0) eqn:E2; [discriminate|].
+    destruct (Qeq_bool (temp rs) 0) eqn:E3; [discriminate|].
+    intros _. exists rs. apply Qeq_bool_neq in E1, E2, E3. auto.
+  Qed.
+
+  Lemma find_species_in sps el ch rs :
+    find_species sps el ch = Some rs -> In rs sps /\ charge rs = ch.
+  Proof.
+    unfold find_species. intros H. apply find_some in H. destruct H as [Hin H].
+    apply andb_true_iff in H. destruct H as [_ H]. apply Z.eqb_eq in H. auto.
+  Qed.
+
+  Lemma Qsum_nonneg {A} (f : A -> Q) l : (forall x, In x l -> 0 <= f x) -> 0 <= Qsum (map f l).
+  Proof.
+    induction l as [|x l IH]; intros H; cbn [map Qsum]; [lra|].
+    assert (0 <= f x) by (apply H; left; reflexivity).
+    assert (0 <= Qsum (map f l)) by (apply IH; intros; apply H; right; assumption). lra.
+  Qed.
+
+  Lemma Qsum_ge_member {A} (f : A -> Q) l a :
+    (forall x, In x l -> 0 <= f x) -> In a l -> f a <= Qsum (map f l).
+  Proof.
+    induction l as [|x l IH]; intros H Hin; [destruct Hin|]. cbn [map Qsum].
+    assert (0 <= f x) by (apply H; left; reflexivity).
+    assert (0 <= Qsum (map f l)) by (apply Qsum_nonneg; intros; apply H; right; assumption).
+    destruct Hin as [->|Hin]; [lra|].
+    assert (f a <= Qsum (map f l)) by (apply IH; [intros; apply H; right; assumption | assumption]). lra.
+  Qed.
+
+  Lemma map_fst_combine {A B} (l : list A) (l' : list B) : length l' = length l -> map fst (combine l l') = l.
+  Proof.
+    revert l'. induction l as [|x l IH]; intros [|y l'] H; simpl in *; try discriminate; [reflexivity|].
+    f_equal. apply IH. congruence.
+  Qed.
+
+  (* the relative population of an excited beam state is >= 0 for non-negative population tables *)
+  Lemma population_nonneg bv (sps : list species) (cs : list rate3) rs :
+    (forall s, In s sps -> (0 <= charge s)%Z /\ 0 <= dens s) ->
+    length cs = length sps ->
+    (forall c, In c cs -> forall e n t, 0 <= c e n t) ->
+    In rs sps -> (0 < charge rs)%Z -> ~ dens rs == 0 ->
+    0 <= spec_population sqrt K bv (combine sps cs).
+  Proof.
+    intros Hs Hlen Hc Hin Hz Hd. unfold spec_population.
+    assert (Hzq : forall s, In s sps -> 0 <= zq s).
+    { intros s Hs'. unfold zq. change 0 with (inject_Z 0). rewrite <- Zle_Qle. apply (Hs s Hs'). }
+    assert (Hden : 0 < Qsum (map (fun sf : species * rate3 => dens (fst sf) * zq (fst sf)) (combine sps cs))).
+    { assert (E : map (fun sf : species * rate3 => dens (fst sf) * zq (fst sf)) (combine sps cs)
+                  = map (fun s => dens s * zq s) (map fst (combine sps cs))) by (rewrite map_map; reflexivity).
+      rewrite E, (map_fst_combine sps cs Hlen).
+      assert (G : dens rs * zq rs <= Qsum (map (fun s => dens s * zq s) sps)).
+      { apply (Qsum_ge_member (fun s => dens s * zq s)); [|assumption].
+        intros s Hs'. destruct (Hs s Hs') as [_ Hd']. specialize (Hzq s Hs'). nra. }
+      assert (0 < zq rs) by (apply zq_pos, Z.ltb_lt; assumption).
+      destruct (Hs rs Hin) as [_ Hd0].
+      assert (0 < dens rs) by (destruct (Qlt_le_dec 0 (dens rs)) as [|Hle]; [assumption | exfalso; apply Hd; lra]).
+      nra. }
+    apply Qle_shift_div_l; [assumption|]. rewrite Qmult_0_l. apply Qsum_nonneg.
+    intros [s c] Hsc. cbn [fst snd]. pose proof (in_combine_l _ _ _ _ Hsc) as Hs'. pose proof (in_combine_r _ _ _ _ Hsc) as Hc'.
+    destruct (Hs s Hs') as [_ Hd']. specialize (Hzq s Hs'). unfold coeff_value. cbn [fst snd].
+    pose proof (Hc c Hc' (interaction_energy sqrt K bv (vel s)) (spec_density_sum (map fst (combine sps cs)) / zq s) (temp s)) as Hv.
+    apply Qmult_le_0_compat; [apply Qmult_le_0_compat; assumption | exact Hv].
+  Qed.
+
+  (* the bounded-mean statement with the population hypothesis discharged: non-negative densities, charges >= 0,
+     a line of charge >= 0, one non-negative population coefficient per species of the composition *)
+  Lemma cx_emission_bounded_nonneg sps bfield lel lch rates beam_len beam_z att dir energy r :
+    rates_proper rates ->
+    (forall s, In s sps -> (0 <= charge s)%Z /\ 0 <= dens s) ->
+    (0 <= lch)%Z ->
+    (forall rt, In rt rates -> length (snd rt) = length sps /\ forall c, In c (snd rt) -> forall e n t, 0 <= c e n t) ->
+    cx_emission sqrt K sps bfield lel lch rates beam_len beam_z att dir energy = AddLine r ->
+    exists rs ground q,
+      find_species sps lel (lch + 1) = Some rs /\ ground_of rates = Some ground /\
+      r == c_k4pi K * beam_density beam_len beam_z att * dens rs * q /\
+      let a5 := spec_args5 sqrt K sps bfield (beam_velocity sqrt K dir energy) rs in
+      lmin (apply5 ground a5) (map (fun ex => apply5 (fst ex) a5) (excited_of rates)) <= q
+      <= lmax (apply5 ground a5) (map (fun ex => apply5 (fst ex) a5) (excited_of rates)).
+  Proof.
+    intros Hp Hs Hl Hr H. apply cx_emission_bounded; [assumption | | assumption].
+    destruct (cx_emission_guards _ _ _ _ _ _ _ _ _ _ _ H) as [rs [Ef [_ [Hd _]]]].
+    destruct (find_species_in _ _ _ _ Ef) as [Hin Hch].
+    intros ex Hex. apply excited_of_in in Hex. destruct Hex as [rt [Hrt ->]]. cbn [snd].
+    destruct (Hr rt Hrt) as [Hlen Hc].
+    apply (population_nonneg _ sps (snd rt) rs); try assumption. lia.
+  Qed.
+
   Lemma cx_vanishes sps bfield lel lch rates beam_len beam_z att dir energy rs :
     find_species sps lel (lch + 1) = Some rs ->
     beam_density beam_len beam_z att == 0 \/ dens rs == 0 ->
     cx_emission sqrt K sps bfield lel lch rates beam_len beam_z att dir energy = Unchanged.
   Proof.
-    intros Ef H. unfold cx_emission. rewrite Ef.
+    intros Ef H. unfold cx_emission, cx_emission_gen. rewrite Ef.
     destruct (Qeq_bool (beam_density beam_len beam_z att) 0) eqn:E1; [reflexivity|].
     destruct (Qeq_bool (dens rs) 0) eqn:E2; [reflexivity|].
     apply Qeq_bool_neq in E1, E2. tauto.
